@@ -277,7 +277,7 @@ Proof.
     + unfold bs_finalize, bs_finalize_ro. rewrite Hopts, Hv.
       unfold bs_close. cbn [set_flags ws_opts ws_finalized ws_closed]. rewrite Hopts, Hv, Hcl. cbn [negb andb].
       eexists. split; [reflexivity|]. exact Hl.
-    + unfold st_finalize. rewrite Hopts, Hv. eexists. split; [reflexivity|]. exact Hl.
+    + unfold st_finalize. rewrite Hopts, Hv, Hcl. eexists. split; [reflexivity|]. exact Hl.
   - destruct k as [|wa].
     + unfold bs_finalize, bs_finalize_ro. rewrite Hopts, Hv, Hcl, Hfin.
       destruct (store_finalize_layout KBlockstore o roots ro s stored fi false true Ho Hv I Hfit (Hfi eq_refl))
@@ -289,7 +289,7 @@ Proof.
         destruct (write_chunks _ _ _) as [[? ?] ?]. destruct (negb _); [discriminate|].
         destruct (write_chunks _ _ _) as [[? ?] ?]. inversion Hsf. cbn. exact Hopts. }
       rewrite Ho', Hv, Hf', Hc'. cbn [negb andb]. eexists. split; [reflexivity|]. exact Hl.
-    + unfold st_finalize. rewrite Hopts, Hv, Hcl.
+    + unfold st_finalize. rewrite Hcl, Hopts, Hv.
       destruct (store_finalize_layout (KStorage wa) o roots ro s stored fi true false Ho Hv I Hfit (Hfi eq_refl))
         as (s' & Hsf & Hl & _).
       rewrite Hfin. rewrite Hsf. eexists. split; [reflexivity|]. exact Hl.
@@ -337,7 +337,7 @@ Proof.
     rewrite (store_finalize_bad_codec KBlockstore o roots ro s1 stored false true I1 Hfi).
     unfold bs_close. cbn [set_flags ws_opts ws_finalized ws_closed]. rewrite Hopts, Hv. cbn [negb andb].
     eexists. eexists. split; [reflexivity|]. exact Hfile.
-  - unfold st_finalize. rewrite Hopts, Hv, Hcl.
+  - unfold st_finalize. rewrite Hcl, Hopts, Hv.
     rewrite Hfin. rewrite (store_finalize_bad_codec (KStorage wa) o roots ro s1 stored true false I1 Hfi).
     eexists. eexists. split; [reflexivity|]. exact Hfile.
 Qed.
